@@ -278,6 +278,31 @@ def _benign_use(m, f, c, label):
             return True, 'logged only'
         p = getattr(p, '_parent', None)
     if f is None:
+        # "X = <call>" in a class body / at module level: every read of X
+        # (as a name there, as an attribute anywhere) is an operand of an
+        # (in)equality test
+        if isinstance(par, ast.Assign) and len(par.targets) == 1 and \
+                isinstance(par.targets[0], ast.Name) and par.value is c:
+            v = par.targets[0].id
+            reads = []
+            for x in ast.walk(m.tree):
+                if isinstance(x, ast.Attribute) and x.attr == v and \
+                        isinstance(x.ctx, ast.Load):
+                    reads.append(x)
+                elif isinstance(x, ast.Name) and x.id == v and isinstance(
+                        x.ctx, ast.Load):
+                    reads.append(x)
+            for u in reads:
+                up = getattr(u, '_parent', None)
+                if isinstance(up, ast.Compare) and all(
+                        isinstance(o, (ast.Eq, ast.NotEq, ast.Is, ast.IsNot))
+                        for o in up.ops):
+                    continue
+                return False, (f'module level; "{v}" used in '
+                               f'{unparse(up)[:40]}')
+            if reads:
+                return True, (f'kept in "{v}" and compared for equality '
+                              'only')
         return False, 'module level'
     q = f._qualname
     if label in ('os.getpid()', 'threading.get_ident()'):
